@@ -1,13 +1,13 @@
 SPECIFICATION Spec
 CONSTANTS
   FAMSEL = {"full", "ring", "func1", "func2", "sim", "deep"}
-  MAXN = 3
+  MAXN = 4
   FULLN = 2
   LEAFS = {1, 2}
   SEED = 1
   BRANCH = 2
-  DEPTHS = {1000, 100000}
-  BIGDEPTHS = {}
+  DEPTHS = {1000, 10000, 100000}
+  BIGDEPTHS = {1000000}
   VARIANT = "ok"
   ALG = FALSE
 INVARIANTS TypeOK ModelOK EmitCase
